@@ -275,6 +275,11 @@ def replay_adc(vals, oid):
     bad = []
     for v in (1, 2, 2.1, 2.4, "NPultra"):
         bad += _adc_history(v)
+    for tv, gen in ((np.int64(2), 2), (np.int32(2), 2), (np.float32(2.4), 2), (np.int64(1), 1)):
+        s_, a_ = neuropixel.adc_shifts(version=tv)
+        ws, wa = adc_spec(gen, 384)
+        if not (np.array_equal(s_, ws) and np.array_equal(a_, wa)):
+            bad.append({"version": f"{type(tv).__name__}({tv})", "table_of_another_generation": True, "delay_of_channel_2": float(s_[2]), "expected": float(ws[2])})
     for v in (1, 2, 2.1, 2.4, "NPultra"):
         s_, a_ = neuropixel.adc_shifts(version=v)
         ws, wa = adc_spec(1 if v in (1, "NPultra") else 2, 384)
@@ -293,6 +298,16 @@ def h_adc(H):
 
     def body(it):
         it.session.note_function(neuropixel.adc_shifts)
+        # the generation number as callers hold it: python numbers, the string, and the same numbers in NumPy scalars (a value read from an array or a table column)
+        typed = [(np.int64(1), 1), (np.int32(2), 2), (np.int64(2), 2), (np.float64(2.1), 2), (np.float32(2.4), 2), (np.float64(2.4), 2), (np.float32(1.0), 1)]
+        for tv, gen in typed:
+            try:
+                s_, a_ = neuropixel.adc_shifts(version=tv)
+                ws, wa = adc_spec(gen, 384)
+                okt = np.array_equal(s_, ws) and np.array_equal(a_, wa)
+            except Exception:
+                okt = False
+            it.ctx.oblige(f"adc.table.{type(tv).__name__}({tv})", z3.BoolVal(bool(okt)), "post", "the table of the probe generation whatever numeric type holds the generation number")
         for v in (1, 2, 2.1, 2.4, "NPultra"):
             ok, why = True, ""
             for nc in range(1, 385):
